@@ -40,6 +40,7 @@ TrCall ==
 
 TrEnd ==
     /\ Ev("cend") /\ UNCHANGED cvars
+    /\ Trace[l].poison = <<>>                       \* pool sensor: no buffer written after Put, none put twice
     /\ (st = "done" /\ last.err = "eof") => delivered = Trace[l].total /\ produced = Trace[l].total
 
 TraceNext == TrNew \/ TrCall \/ TrEnd
